@@ -25,11 +25,10 @@ EXPLANATION = ("get_url_params is decided as a pure function of a structured sym
                "whole-string comparison of an atom with a literal is answered 'different' and recorded, and every recorded literal outside "
                "the partition's constants gets a literal class of its own (the function depends on its input only through these "
                "comparisons). Anything the models cannot evaluate stays an opaque term and fails the class. The set's equality is the "
-               "enum's own PartialEq (evaluated; decided to be 'same variant' for all 36 variant pairs); a workspace comparison helper "
+               "enum's own PartialEq (evaluated; decided to be 'same variant' for all 36 variant pairs, and its Hash feeds the hasher nothing but the variant); a limit (splitn(n), take(n)) that no class reaches is reported; a workspace comparison helper "
                "(ascii_lc_equal, found by role) is decided by literal evaluation against 'equal up to ASCII case' on the partition of words "
                "relative to each name it is called with. Not decided: the url crate's own parsing of exotic strings.")
-TRUSTED = ['url crate (path(), query()): ASCII-only, percent-encoded text', 'percent_encoding crate', 'std str / iterator / HashSet functions as modelled in rules/strdom.py',
-           'Hash for LdapUrlExt consistent with its PartialEq']
+TRUSTED = ['url crate (path(), query()): ASCII-only, percent-encoded text', 'percent_encoding crate', 'std str / iterator / HashSet functions as modelled in rules/strdom.py']
 UNDECIDED = ['behaviour of the url crate on exotic strings']
 ASSUMPTIONS = ['the extension classes are crossed with two settings of the other fields (all defaulted / all given) and one path; the other fields, the number of fields and the path classes are crossed fully with three extension fields',
                'extension lists of one, two and three elements stand for all lists: one iteration reads nothing of the earlier ones but the set (checked: lists whose second element would show a carried flag)',
@@ -481,6 +480,9 @@ def run(ctx):
             for c in hosts:
                 evaluate(substitute(c, name, L)); extra += 1
     J.finish()
+    loose = sorted(n for (site, n), binding in dom.bounds.items() if not binding)
+    ctx.add('F.bounds-exercised', 'splitn / take limits', loc(root), not loose,
+            'a limit of %s pieces / elements is never reached by a class of the partition: what the function does with a longer input is not decided' % loose)
     ctx.add('F.partition-closed', 'literals compared with atoms', loc(root), len(done) <= 24,
             'the function compares its input with %d literals outside the partition (%s); each was evaluated as a class of its own (%d classes)' % (len(done), sorted(done)[:6], extra))
     for (rule, inst), (nok, nbad, detail) in sorted(J.groups.items()):
@@ -528,4 +530,26 @@ def run(ctx):
             vals = {o.val for o in IE.run(env={binds['self']: ta, binds['other']: tb}) if o.kind in ('val', 'ret')}
             if vals != {('lit', a == b)}:
                 wrong.append((a, b, sorted(map(str, vals))))
+    # ---- and the hash agrees with it: what is fed to the hasher does not depend on the payload (equal values hash alike)
+    hp = [h for h in f.hir if h.startswith('<ldap3::util::LdapUrlExt<') and h.endswith(' as core::hash::Hash>::hash')]
+    if len(hp) != 1:
+        ctx.fail('anchor-missing', 'Hash for LdapUrlExt', '', 'the hand-written Hash of LdapUrlExt was not found'); return
+    HB = hirq.Body(f, f.body(hp[0]))
+    ctx.analysed['bodies'].add(hp[0])
+    IH = absx.Interp(f, HB, result_combinators=False)
+    hb = {d['name']: b for b, d in HB.defs.items() if d['kind'] == 'param'}
+    badh = []
+    for a in variants:
+        ta = ('ctor', 'LdapUrlExt::' + a, () if a == 'StartTLS' else (('param', 'x'),))
+        env = {hb['self']: ta}
+        env.update({b: ('param', n) for n, b in hb.items() if n != 'self'})
+        fed = set()
+        for o in IH.run(env=env):
+            calls = [e for e in o.st.ev if e[0] == 'call']
+            if o.kind not in ('val', 'ret') or any(absx.leaves(('x',) + tuple(e[2]), lambda z: z == ('param', 'x') or z[0] in ('variant', 'vfield', 'unk')) for e in calls):
+                badh.append(a)
+            fed.add(tuple(absx.fmt(e[2][0]) for e in calls if e[1].endswith('::hash')))
+        if len(fed) != 1:
+            badh.append(a)
+    ctx.add('F6.hash-agrees-with-equality', 'LdapUrlExt::hash', loc(HB.root), not badh, 'what hash() feeds to the hasher depends on more than the variant for %s: values that are equal would hash differently' % sorted(set(badh)))
     ctx.add('F6.set-equality-by-variant', 'LdapUrlExt::eq', loc(E.root), not wrong and len(variants) == 6, 'eq() over all variant pairs deviates from "same variant": %s' % wrong[:4])
